@@ -238,3 +238,43 @@ pub use piece::*;
 pub use square::*;
 pub use terminal::*;
 pub use zobrist::Zobrist;
+
+/// Verification hooks (off by default): the values of crate-private constants and shift macros as compiled.
+#[cfg(feature = "verif_hooks")]
+pub mod verif_hooks {
+    use crate::bit_mask::*;
+
+    /// (name, value) of every private bit mask
+    pub fn masks() -> Vec<(&'static str, u64)> {
+        vec![
+            ("LEFT_COLUMN_MASK", LEFT_COLUMN_MASK),
+            ("RIGHT_COLUMN_MASK", RIGHT_COLUMN_MASK),
+            ("TOP_ROW_MASK", TOP_ROW_MASK),
+            ("BOTTOM_ROW_MASK", BOTTOM_ROW_MASK),
+            ("P1_PLACEMENT_MASK", P1_PLACEMENT_MASK),
+            ("P2_PLACEMENT_MASK", P2_PLACEMENT_MASK),
+            ("LAST_P1_PLACEMENT_MASK", LAST_P1_PLACEMENT_MASK),
+            ("LAST_P2_PLACEMENT_MASK", LAST_P2_PLACEMENT_MASK),
+            ("TRAP_MASK", TRAP_MASK),
+            ("P1_OBJECTIVE_MASK", P1_OBJECTIVE_MASK),
+            ("P2_OBJECTIVE_MASK", P2_OBJECTIVE_MASK),
+        ]
+    }
+
+    /// (macro name, its value on the given word) for the eight shift macros of bit_manip.rs
+    pub fn shifts(x: u64) -> Vec<(&'static str, u64)> {
+        vec![
+            ("shift_up", shift_up!(x)),
+            ("shift_right", shift_right!(x)),
+            ("shift_down", shift_down!(x)),
+            ("shift_left", shift_left!(x)),
+            ("shift_pieces_up", shift_pieces_up!(x)),
+            ("shift_pieces_right", shift_pieces_right!(x)),
+            ("shift_pieces_down", shift_pieces_down!(x)),
+            ("shift_pieces_left", shift_pieces_left!(x)),
+        ]
+    }
+
+    pub use crate::zobrist::verif::*;
+}
+
